@@ -21,7 +21,8 @@ pub fn inverse_gamma_lr<T: MomTropFloat>(
         epsilon_tolerance.to_f64(),
     );
 
-    if res.is_nan() {
+    // a quantile of the Gamma distribution is a finite, strictly positive number
+    if !(res > 0.0 && res.is_finite()) {
         Err(GammaError {})
     } else {
         Ok(a.from_f64(res))
